@@ -13,10 +13,11 @@ import Resonate.Proofs.NoPanic
 namespace Resonate.C13
 open Coro SqlSpec
 
-/-- what the HTTP and gRPC front ends let through (tied by frontdiff: a malformed request is answered 4xx without
+/-- what the HTTP and gRPC front ends let through (the store asserts a non-empty state set on a promise search)
+    (tied by frontdiff: a malformed request is answered 4xx without
     reaching the kernel, or reaches it in a form that satisfies this predicate) -/
 def ValidReq : Req → Prop
-  | .searchPromises q => q.id ≠ "" ∧ 0 < q.limit
+  | .searchPromises q => q.id ≠ "" ∧ 0 < q.limit ∧ q.states ≠ []
   | .searchSchedules q => q.id ≠ "" ∧ 0 < q.limit
   | .claimTask q => q.processId ≠ "" ∧ 0 ≤ q.ttl
   | .createPromiseAndTask p tr => p.id = tr.promiseId ∧ p.timeout = tr.timeout
@@ -31,7 +32,7 @@ theorem request_never_panics (d : Dialect) (env : Env) (r : Req) (hv : ValidReq 
     NoPanic d lo now ((r.body env t0) t) := by
   cases r with
   | readPromise id => exact np_readPromise d id t lo now
-  | searchPromises q => exact np_searchPromises d q t hv.1 hv.2 lo now
+  | searchPromises q => exact np_searchPromises d q t hv.1 hv.2.1 lo now
   | createPromise q => exact np_createPromiseInner d q none false t rfl (by intro tc h; cases h) lo now
   | createPromiseAndTask p tr =>
     simp only [Req.body]
